@@ -11,6 +11,8 @@ TAB/FLOW on ServerAssociationOptions::process_a_association_rq and choose_ts:
 4. rejections: protocol version / application context / access control map to the PS3.8 reason constants.
 5. max-pdu: MaxLength(0) -> MAXIMUM_PDU_SIZE, MaxLength(n) -> min(n, MAXIMUM_PDU_SIZE), absent -> DEFAULT_MAX_PDU.
 """
+import re
+
 from . import facts, hirq as H, common as C
 
 LEVEL_TEXT = ("Every branch of the acceptor's decision procedure is compared with the rule it implements (reason constants, gating "
@@ -209,4 +211,19 @@ def run(chk, tier):
             else:
                 chk.bad("reject-codes-on-the-wire", inst["fn"], inst["instance"], inst.get("expected"), inst.get("found"), loc=inst.get("loc"))
     chk.floor("reject-codes-on-the-wire", "reject table instances", n_rj, 20)
+    # the two built-in access control policies
+    chk.rule("access-control", "AcceptAny::check_access is Ok(()) unconditionally; AcceptCalledAeTitle::check_access is Ok(()) iff this_ae_title == called_ae_title, "
+             "otherwise Err(CalledAETitleNotRecognized)")
+    acs = {hh["path"]: hh for hh in fx.crate("dicom_ul")["hir"] if hh["path"].endswith("AccessControl>::check_access") and f"{SRV}::Accept" in hh["path"]}
+    any_ = [hh for p_, hh in acs.items() if "AcceptAny" in p_]
+    called = [hh for p_, hh in acs.items() if "AcceptCalledAeTitle" in p_]
+    if len(any_) != 1 or len(called) != 1:
+        raise facts.MissingAnchor("AccessControl impls of AcceptAny / AcceptCalledAeTitle")
+    t_any = H.show(any_[0]["body"], 5)
+    chk.expect(re.fullmatch(r"\{?core::result::Result::Ok\(\(\)\)\}?", t_any) is not None, "access-control", "AcceptAny", "always-ok", "Ok(())", t_any, loc=C.fn_loc(any_[0]))
+    ifs_ = [x for x in H.walk(called[0]["body"]) if H.kind(x) == "if"]
+    ok = len(ifs_) == 1 and H.show(ifs_[0][2], 4) in ("(this_ae_title Eq called_ae_title)", "(called_ae_title Eq this_ae_title)") \
+        and "Result::Ok(())" in H.show(ifs_[0][3], 4) and ifs_[0][4] is not None and "Result::Err(" in H.show(ifs_[0][4], 5) and "CalledAETitleNotRecognized" in H.show(ifs_[0][4], 6)
+    chk.expect(ok, "access-control", "AcceptCalledAeTitle", "ok-iff-titles-equal", "if this_ae_title == called_ae_title { Ok(()) } else { Err(CalledAETitleNotRecognized) }",
+               [H.show(x, 6)[:160] for x in ifs_], loc=C.fn_loc(called[0]))
     chk.undecided.append("the value of the decision function over all requests and configurations (needs evaluation); access-control policies supplied by users")
